@@ -64,12 +64,18 @@ struct Obs {
 }
 
 fn expected(root: &Path, files: &[String], spec: &WsSpec, f: &str, ftext: &str, f_open: bool) -> MapSnap {
+    expected2(root, files, spec, f, ftext, f_open, true)
+}
+
+/// `disk_version_in_effect`: the scan reaches F on its own (walk or imports), so for an open document whose buffer does
+/// not parse the file on disk is the last valid version; a file no scan reaches has no version in effect at all then.
+fn expected2(root: &Path, files: &[String], spec: &WsSpec, f: &str, ftext: &str, f_open: bool, disk_version_in_effect: bool) -> MapSnap {
     let db = FixtureDatabase::new();
     if f_open {
         // F is an open document and is analysed first: following another file's import must never pick up F's on-disk text
         // (nor the modules only that older text imports)
         db.document_opened(&root.join(f));
-        if rustpython_parser::parse(ftext, rustpython_parser::Mode::Module, "").is_err() {
+        if disk_version_in_effect && rustpython_parser::parse(ftext, rustpython_parser::Mode::Module, "").is_err() {
             // a buffer that does not parse leaves the last valid version in effect: the file on disk
             if let Some(pf) = spec.file(f) {
                 db.analyze_file(root.join(f), &render(&pf.items).text);
@@ -151,7 +157,20 @@ impl Scenario for ScanEdit {
             spec.extra.push((format!("{}/myplug-0.1.0.dist-info/direct_url.json", sp), "{\"url\": \"file://${ROOT}/plugsrc\", \"dir_info\": {\"editable\": true}}".to_string()));
             spec.extra.push((format!("{}/myplug-0.1.0.dist-info/entry_points.txt", sp), "[pytest11]\nmyplug = myplug.plugin\n".to_string()));
             spec.extra.push((format!("{}/__editable__.myplug-0.1.0.pth", sp), "${ROOT}/plugsrc\n".to_string()));
+            // a helper module of that project which the root conftest declares in pytest_plugins: every file below an editable
+            // install's source root is in the import scan's work list once it is cached, helper modules included
+            spec.files.push(PyFile { rel: "plugsrc/myplug/plug_helper.py".into(), items: vec![Item::Fixture(Fx { func: "helper_plug_fx".into(), ..Default::default() })] });
+            if let Some(cf) = spec.files.iter_mut().find(|f| f.rel == "conftest.py") {
+                if let Some(Item::Plugins { modules, targets }) = cf.items.iter_mut().rev().find(|i| matches!(i, Item::Plugins { .. })) {
+                    modules.push("myplug.plug_helper".into());
+                    targets.push(Some("plugsrc/myplug/plug_helper.py".into()));
+                } else {
+                    cf.items.insert(0, Item::Plugins { modules: vec!["myplug.plug_helper".into()], targets: vec![Some("plugsrc/myplug/plug_helper.py".into())] });
+                }
+            }
         }
+        // in that variant the raced document is, 2 times in 5, the declared helper module, open and half typed
+        let plug_helper_raced = plugin_variant && rng.chance(400);
         let names = names_pool(o.n_names);
         let cands: Vec<String> = spec.files.iter().filter(|f| f.rel.ends_with("conftest.py") || f.rel.rsplit('/').next().map(|n| n.starts_with("test_") || n.ends_with("_test.py")).unwrap_or(false)).map(|f| f.rel.clone()).collect();
         // helper modules the walk does not visit: indexed only because a conftest / test module imports them
@@ -175,8 +194,8 @@ impl Scenario for ScanEdit {
             v
         };
         let helper_raced = !plugin_variant && !helpers.is_empty() && rng.chance(300);
-        let file = if plugin_variant { "conftest.py".to_string() } else if helper_raced { rng.pick(&helpers).clone() } else if cands.is_empty() { "test_new.py".to_string() } else { rng.pick(&cands).clone() };
-        let is_test_module = !file.ends_with("conftest.py") && !helper_raced;
+        let file = if plug_helper_raced { "plugsrc/myplug/plug_helper.py".to_string() } else if plugin_variant { "conftest.py".to_string() } else if helper_raced { rng.pick(&helpers).clone() } else if cands.is_empty() { "test_new.py".to_string() } else { rng.pick(&cands).clone() };
+        let is_test_module = !file.ends_with("conftest.py") && !helper_raced && !plug_helper_raced;
         // the raced document carries more fixtures than the others: longer cleanup and recording phases
         let go = GenOpts { in_class: false, max_fixtures: 6, dup_names: false, ..GenOpts::default() };
         if let Some(pf) = spec.files.iter_mut().find(|f| f.rel == file) {
@@ -198,7 +217,7 @@ impl Scenario for ScanEdit {
             _ => rng.below(12000) as u64,
         };
         // "openclose": the user looks at an unmodified document and closes it again while the scan is running
-        let kind = if rng.chance(150) { "openclose" } else if rng.chance(450) { "open" } else { "change" };
+        let kind = if plug_helper_raced { "open" } else if rng.chance(150) { "openclose" } else if rng.chance(450) { "open" } else { "change" };
         let buffer = if kind == "openclose" { spec.file(&file).map(|pf| render(&pf.items).text).unwrap_or_else(|| "import pytest\n".to_string()) } else { buffer };
         // aimed notifications: a little before the worker picks up F (the message still has to be read
         // and dispatched) up to a little after
@@ -213,7 +232,7 @@ impl Scenario for ScanEdit {
         let via_symlink = rng.chance(150);
         // the user is in the middle of typing: the buffer does not parse (the file on disk is its last valid version)
         // (an open+close of a half-typed document: 2 in 5)
-        let buffer = if rng.chance(if kind == "openclose" { 400 } else { 150 }) { super::pytext::break_syntax(&mut rng, &spec.file(&file).map(|pf| render(&pf.items).text).unwrap_or_else(|| buffer.clone())) } else { buffer };
+        let buffer = if plug_helper_raced || rng.chance(if kind == "openclose" { 400 } else { 150 }) { super::pytext::break_syntax(&mut rng, &spec.file(&file).map(|pf| render(&pf.items).text).unwrap_or_else(|| buffer.clone())) } else { buffer };
         serde_json::to_value(ScanEditInput { spec, sim, file, buffer, kind: kind.into(), delay, aim, second, run_seed, sandbox: None, via_symlink }).unwrap()
     }
 
@@ -307,7 +326,10 @@ impl Scenario for ScanEdit {
             }
         }
         files.sort();
-        let want = expected(&root, &files, &inp.spec, &inp.file, final_text, inp.kind != "openclose").without_origin_flags();
+        // does a scan reach F by itself?  (decides whether the file on disk counts as "the last valid version" of a document
+        // that was only ever open with a buffer that does not parse)
+        let scan_reaches_f = reachable_files(&root, &inp.spec, &inp.file, &disk_text, false).contains(&inp.file);
+        let want = expected2(&root, &files, &inp.spec, &inp.file, final_text, inp.kind != "openclose", scan_reaches_f).without_origin_flags();
         if let Some(d) = a.diff(&want, false) {
             // class: records of two versions of F, and nothing else
             let only_f = {
